@@ -170,6 +170,108 @@ def do_mpe(seqs):
     return out
 
 
+# ---- several devices alive in one process, interleaved calls ----------------------------------------------
+def do_multi(cases):
+    """case = {"devs": ["mpe"|"midi"|"osc", ...], "lazy": bool, "calls": [[d, call], ...]}: device d is an object of class
+    devs[d] with its OWN fake port / loop-back socket; created up-front, or (lazy) at its first call — i.e. after other
+    devices have been used.  call: for "mpe" the list encoding of do_mpe, for "midi" {"op","args","kw"}, for "osc"
+    {"op","args"}.  One result per call in the single-device format (do_mpe / do_midi / do_osc) plus "stray": what the
+    call put on the ports / sockets of the OTHER devices."""
+    out = []
+    for case in cases:
+        kinds = case["devs"]
+        devs, ports, socks, handles = {}, {}, {}, {}
+
+        def make(d):
+            k = kinds[d]
+            if k == "osc":
+                sock = socket.socket(socket.AF_INET, socket.SOCK_DGRAM)
+                sock.bind(("127.0.0.1", 0))
+                socks[d] = sock
+                devs[d] = OSCOutputDevice("127.0.0.1", sock.getsockname()[1])
+            else:
+                devs[d] = MPEOutputDevice("verif-fake-port") if k == "mpe" else MidiOutputDevice("verif-fake-port")
+                ports[d] = devs[d].midi
+            handles[d] = {}
+
+        def drain(sock, wait):
+            got = []
+            sock.settimeout(wait)
+            try:
+                got.append(sock.recv(65536).hex())
+                sock.settimeout(0.0)
+                while True:
+                    got.append(sock.recv(65536).hex())
+            except (socket.timeout, BlockingIOError, OSError):
+                pass
+            return got
+
+        if not case.get("lazy"):
+            for d in range(len(kinds)):
+                make(d)
+        res = []
+        for d, c in case["calls"]:
+            if d not in devs:
+                make(d)
+            for p in ports.values():
+                p.take()
+            dev, k = devs[d], kinds[d]
+            r = {}
+            if k == "mpe":
+                kk = c[0]
+                exc, ret, chan = None, None, None
+                hs = handles[d]
+                if kk == 0:
+                    exc, ret = call(dev.note_on, c[1], c[2])
+                    if ret is not None:
+                        hs[c[1]] = ret
+                        chan = getattr(ret, "channel", None)
+                elif kk == 1:
+                    exc, _ = call(dev.note_off, c[1])
+                elif kk == 5:
+                    h = hs.get(c[1])
+                    exc, _ = call(h.note_off) if h is not None else call(dev.note_off, c[1])
+                else:
+                    h = hs.get(c[1])
+                    if h is not None:
+                        if kk == 2:
+                            exc, _ = call(h.pitch_bend, c[2])
+                        elif kk == 3:
+                            exc, _ = call(h.aftertouch, c[2])
+                        elif kk == 4:
+                            exc, _ = call(h.control, c[2], c[3])
+                r = {"raise": exc, "chan": chan, "none": (kk == 0 and exc is None and ret is None)}
+            elif k == "midi":
+                exc, _ = invoke(dev, c["op"], c["args"], c.get("kw"))
+                r = {"raise": exc}
+            else:
+                if c["op"] == "send":
+                    params = c["args"][1]
+                    a = [c["args"][0]] if params == "absent" else [c["args"][0], None if params is None else [arg(p) for p in params]]
+                    exc, _ = call(dev.send, *a)
+                else:
+                    exc, _ = invoke(dev, c["op"], c["args"], False)
+                r = {"raise": exc, "dgrams": drain(socks[d], 2.0 if exc is None else 0.05)}
+            stray = []
+            for e, p in ports.items():
+                got = [b for (_, b) in p.take()]
+                if e == d:
+                    r["sent"] = got
+                elif got:
+                    stray.append([e, got])
+            for e, sk in socks.items():
+                if e != d:
+                    got = drain(sk, 0.0)
+                    if got:
+                        stray.append([e, got])
+            r["stray"] = stray
+            res.append(r)
+        for sk in socks.values():
+            sk.close()
+        out.append(res)
+    return out
+
+
 # ---- MIDI file ---------------------------------------------------------------------------------------
 def read_file(path):
     mf = mido.MidiFile(path)
@@ -381,6 +483,8 @@ def main():
             out["osch"] = do_osch(req["osch"])
         if "mpe" in req:
             out["mpe"] = do_mpe(req["mpe"])
+        if "multi" in req:
+            out["multi"] = do_multi(req["multi"])
         if "file" in req:
             out["file"] = do_file(req["file"], tmpdir)
         if "timeline" in req:
